@@ -100,7 +100,10 @@ def variants(spec, seed):
     # are renamed together with their ranking)
     if any(d['kind'] in ('categ', 'ordinal') for d in spec['features'].values()):
         s = copy.deepcopy(spec)
-        pre = rng.choice(['zz_', 'A', 'k_'])
+        # the prefix keeps the string order among the categories AND their order relative to the fixed
+        # modalities '__NAN__' / '__OTHER__' (category names start with 'c' > '_'): at exactly equal target
+        # rates the library orders modalities alphabetically, sentinels included
+        pre = rng.choice(['zz_', 'k_', 'd'])
 
         def ren(v):
             return None if v is None else pre + E.strform(v)
